@@ -170,11 +170,14 @@ def entries():
     add("StandardNormal/2d", "dist", lambda: D.StandardNormal([2, 2]), _rn(2, 2), flags={"sample", "noparams", "mean"})
     add("DiagonalNormal", "dist", lambda: D.DiagonalNormal([3]), _rn(3), flags={})
     add("ConditionalDiagonalNormal", "dist", lambda: D.ConditionalDiagonalNormal([3], context_encoder=torch.nn.Linear(2, 6)), _rn(3), _rn(2), flags={"sample", "needs_ctx", "mean"})
+    add("ConditionalDiagonalNormal/identity-encoder", "dist", lambda: D.ConditionalDiagonalNormal([3]), _rn(3), (lambda n, g: 0.5 * torch.randn(n, 6, generator=g)), flags={"sample", "needs_ctx", "mean", "noparams"})
+    add("ConditionalIndependentBernoulli/identity-encoder", "dist", lambda: D.ConditionalIndependentBernoulli([3]), (lambda n, g: (torch.rand(n, 3, generator=g) < 0.5).float()), _rn(3), flags={"sample", "needs_ctx", "discrete", "mean", "noparams"})
     add("ConditionalIndependentBernoulli", "dist", lambda: D.ConditionalIndependentBernoulli([3], context_encoder=torch.nn.Linear(2, 3)), (lambda n, g: (torch.rand(n, 3, generator=g) < 0.5).float()), _rn(2), flags={"sample", "needs_ctx", "discrete", "mean"})
     add("MADEMoG", "dist", lambda: MADEMoG(3, 8, context_features=2, num_blocks=1, num_mixture_components=3), _rn(3), _rn(2), flags={"sample", "needs_ctx"})
     # ---- flows
     add("Flow(LU+MAF|Normal)", "flow", lambda: FL.base.Flow(TR.CompositeTransform([TR.LULinear(3, identity_init=False), TR.MaskedAffineAutoregressiveTransform(3, 8, num_blocks=1)]), D.StandardNormal([3])), _rn(3), flags={"sample"})
     add("Flow(coupling|CondNormal)+embedding", "flow", lambda: FL.base.Flow(TR.AffineCouplingTransform([1, -1, 1], resnet(4)), D.ConditionalDiagonalNormal([3], context_encoder=torch.nn.Linear(4, 6)), embedding_net=torch.nn.Linear(2, 4)), _rn(3), _rn(2), flags={"sample", "needs_ctx"})
+    add("Flow(affine|CondNormal identity-encoder)", "flow", lambda: FL.base.Flow(TR.PointwiseAffineTransform(shift=0.5, scale=2.0), D.ConditionalDiagonalNormal([3])), _rn(3), (lambda n, g: 0.5 * torch.randn(n, 6, generator=g)), flags={"sample", "needs_ctx", "noparams"})
     add("MaskedAutoregressiveFlow", "flow", lambda: FL.MaskedAutoregressiveFlow(3, 8, num_layers=2, num_blocks_per_layer=1, use_random_permutations=True, use_random_masks=True, use_residual_blocks=False, batch_norm_between_layers=True), _rn(3), flags={"sample", "ctor_random", "needs_init", "batch_coupled_train"})
     add("SimpleRealNVP", "flow", lambda: FL.SimpleRealNVP(4, 8, num_layers=2, num_blocks_per_layer=1), _rn(4), flags={"sample"})
     return E
